@@ -272,14 +272,46 @@ func parseLiteral(token lex.Token) (e any, err error) {
 	}
 
 	// if it contains unescaped wildcards then it is a wildcard string
-	if strings.ContainsAny(token.Val, "*?") {
+	if hasUnescapedWildcard(token.Val) {
 		return expr.WILD(token.Val), nil
 	}
 
 	// if it contains an escape string then strip it out now
 	if strings.Contains(token.Val, `\`) {
-		return expr.Lit(strings.ReplaceAll(token.Val, `\`, "")), nil
+		return expr.Lit(unescape(token.Val)), nil
 	}
 
 	return expr.Lit(token.Val), nil
+}
+
+// hasUnescapedWildcard checks whether the word contains a * or ? that is not preceded by a backslash.
+func hasUnescapedWildcard(in string) bool {
+	escaped := false
+	for i := 0; i < len(in); i++ {
+		switch {
+		case escaped:
+			escaped = false
+		case in[i] == '\\':
+			escaped = true
+		case in[i] == '*' || in[i] == '?':
+			return true
+		}
+	}
+	return false
+}
+
+// unescape removes every escaping backslash and keeps the character it escapes. It works on
+// bytes so that everything else in the word is kept exactly as it was typed.
+func unescape(in string) string {
+	out := make([]byte, 0, len(in))
+	escaped := false
+	for i := 0; i < len(in); i++ {
+		if !escaped && in[i] == '\\' {
+			escaped = true
+			continue
+		}
+		escaped = false
+		out = append(out, in[i])
+	}
+	return string(out)
 }
